@@ -39,6 +39,14 @@ def generate(rng, tier):
                 for tr in (False, True):
                     cases.append({"stream": "chained", "input": {"text": chained, "n_items": 6,
                                                                  "fmt": {"indent": ind, "column": col, "trailing": tr, "sep": sep}}})
+    # known finding K7: an explicit comment / entry key whose stripped text ends in a backslash
+    k7docs = ["@comment{a line \\\\\n}\n@article{k, x = {y}}", "@comment{a\\ }", "@article{k\\ , x = {y}}\n@comment{fine}",
+              "% free\n@Comment{ {nested} tail\\\t}\n@string{s = {v}}"]
+    for t in k7docs:
+        for ind in INDENTS[:2]:
+            for col in (0, "auto"):
+                cases.append({"stream": "K7", "input": {"text": t, "n_items": 2,
+                                                        "fmt": {"indent": ind, "column": col, "trailing": False, "sep": "\n\n"}}})
     return cases
 
 
@@ -88,6 +96,9 @@ def impl(case):
     elif t1 != t2:
         ok, detail = False, "second write differs from the first"
     rec["oracle"] = {"ok": ok, "detail": detail[:400]}
+    if not ok and any((type(b).__name__ == "Entry" and b.key.endswith("\\")) or
+                      (type(b).__name__ == "ExplicitComment" and b.comment.endswith("\\")) for b in l1.blocks):
+        rec["oracle"]["known"] = "K7"
     rec["nontrivial"] = inp["n_items"] >= 2 or any(type(b).__name__ == "Entry" and b.fields for b in l1.blocks)
     rec["summary"] = repr(t1)[:200]
     return rec
